@@ -21,7 +21,7 @@ def mcfg(name, gen=False, maxops=6, procs=(1, 2), slots=(1, 2), stores=(1,), fix
 
 class Session:
     def __init__(self, root, work, kind, stores=(1, 2)):
-        env = dict(os.environ, PYTHONPATH="/repo", PYTHONHASHSEED="0", PYTHONDONTWRITEBYTECODE="1")
+        env = dict(os.environ, PYTHONPATH=os.environ.get("VERIF_REPO", "/repo"), PYTHONHASHSEED="0", PYTHONDONTWRITEBYTECODE="1")
         self.p = subprocess.Popen([PY, "-u", SESSION, json.dumps({"root": root, "work": work, "kind": kind, "stores": list(stores), "log": os.path.join(root, "..", "exec.log")})], env=env,
                                   stdin=subprocess.PIPE, stdout=subprocess.PIPE, stderr=subprocess.PIPE, text=True, bufsize=1)
 
